@@ -128,7 +128,10 @@ Enrich(r0) ==
               hskip |-> [el \in els |-> \E k \in DOMAIN r0.skips : covers(k, el, TRUE)],
               askip |-> [el \in els |-> \E k \in DOMAIN r0.skips : covers(k, el, FALSE)],
               desc |-> [el \in els |-> {y \in els : el \in anc[y]}],
-              match |-> [el \in els |-> EvalX(r0.cfg.nodes, r0.cfg.root, eff[el]) /\ (r0.cfg.wip => "wip" \in eff[el])],
+              tmatch |-> [el \in els |-> EvalX(r0.cfg.nodes, r0.cfg.root, eff[el]) /\ (r0.cfg.wip => "wip" \in eff[el])],     \* by tags alone
+              match |-> [el \in els |-> /\ EvalX(r0.cfg.nodes, r0.cfg.root, eff[el]) /\ (r0.cfg.wip => "wip" \in eff[el])
+                                         \* --name: a scenario is selected only if its name matches one of the patterns
+                                         /\ (r0.cfg.name_on /\ r0.prog[el].kind = "scenario" => \E k \in DOMAIN r0.cfg.namesel : r0.cfg.namesel[k] = el)],
               last |-> last,
               called |-> {<<E[i].el, E[i].pos>> : i \in {j \in I : E[j].k = "step" /\ E[j].att = last[E[j].el]}},
               shr |-> {<<E[i].el, E[i].pos>> : i \in {j \in I : IsStepHook(E[j]) /\ E[j].raised /\ E[j].att = last[E[j].el]}},
@@ -357,7 +360,8 @@ C12(r) ==
    \* no hooks for elements that are neither selected by their own tags nor contain a selected scenario
    \* ... nor for elements below a feature / rule that one of its hooks excluded at run time
    \cup (IF \E i \in Ix(r) : LET e == Ev(r, i) IN IsHook(e) /\ e.el # 0 /\
-              \/ (~OwnMatch(r, e.el) /\ (\A s \in ScensUnder(r, e.el) : ~r.x.match[s]))
+              \/ (~r.x.tmatch[e.el] /\ (\A s \in ScensUnder(r, e.el) : ~r.x.tmatch[s]))            \* (hooks of containers go by tags, not by --name)
+              \/ (Kind(r, e.el) = "scenario" /\ ~r.x.match[e.el])
               \/ r.x.askip[e.el]
          THEN {"C12.not_for_skipped"} ELSE {})
    \cup (IF r.cfg.dry /\ \E i \in Ix(r) : IsHook(Ev(r, i)) THEN {"C12.not_in_dry_run"} ELSE {})
@@ -509,12 +513,15 @@ C18Log(r) ==
                           /\ Ev(r, nextOutside(i)).nfor > Ev(r, i).nfor
          THEN {"C18.logging_restored"} ELSE {})
 C13r(r) == C13rVis(r) \cup C13rCl(r)
-ClausesX(r) == C01(r) \cup C02(r) \cup C03(r) \cup C09(r) \cup C12(r) \cup C13r(r) \cup C18(r) \cup C18Marks(r) \cup C18UserLog(r)
+\* with --name in force the selection clauses speak about name selection: they are reported under C10
+C09N(r) == IF r.cfg.name_on THEN (IF C09(r) \ {"C09.effective"} # {} THEN {"C10.name_in_run"} ELSE {}) \cup (C09(r) \cap {"C09.effective"})
+           ELSE C09(r)
+ClausesX(r) == C01(r) \cup C02(r) \cup C03(r) \cup C09N(r) \cup C12(r) \cup C13r(r) \cup C18(r) \cup C18Marks(r) \cup C18UserLog(r)
 Clauses(r0) == LET r == Enrich(r0) IN ClausesX(r) \cup C12Pair(r) \cup C18Log(r0)
 PairClauses(r0) == C12Pair(Enrich(r0))
 ExitClauses(r0) == C01Exit([Enrich(r0) EXCEPT !.base = r0.base] @@ [exit |-> r0.exit])
 \* on behaviours of the specification itself (no probes of the driver's context instrumentation)
-ClausesMCX(r) == C01(r) \cup C02(r) \cup C03(r) \cup C09(r) \cup C12(r) \cup C13rCl(r) \cup C18(r) \cup C18Marks(r) \cup C18UserLog(r)
+ClausesMCX(r) == C01(r) \cup C02(r) \cup C03(r) \cup C09N(r) \cup C12(r) \cup C13rCl(r) \cup C18(r) \cup C18Marks(r) \cup C18UserLog(r)
 ClausesMC(r0) == ClausesMCX(Enrich(r0))
 \* defect families of the code as it is (DESIGN §8): the specification models them, the property layer rejects them
 KnownFamilies == {"C03.rollup/skip_by_step", "C03.rollup/order"}
